@@ -49,6 +49,9 @@ Definition is_pending (f : fstat) := match f with FPending => true | _ => false 
 Definition is_fdone (f : fstat) := match f with FDone => true | _ => false end.
 Definition is_cancelled (f : fstat) := match f with FCancelled => true | _ => false end.
 
+(* primitive projections: [pools (mkState a ..)] reduces without exposing a match on variables
+   (keeps the proof terms of Proofs/Pool*.v small; no effect on vm_compute results) *)
+Set Primitive Projections.
 (* ---------------- asyncio.Lock ---------------- *)
 Record lock := mkLock { locked : bool; lwait : list (tid * fstat) }.
 Definition free_lock := mkLock false [].
@@ -188,6 +191,8 @@ Record state := mkState {
   ckey : cid -> key;            (* connection.key *)
   err : bool                    (* an exception escaped pool code (KeyError, RuntimeError) *)
 }.
+
+Unset Primitive Projections.
 
 Definition init : state :=
   mkState [] free_lock [] (fun _ => R_none) 0 (fun _ => C_idle) (fun _ => false) (fun _ => false)
